@@ -350,8 +350,9 @@ class HierDictDocument(DictDocument):
 
             mo = member_attrs.max_occurs
             if mo > 1 and v is None:
-                # positional documents (lists) can't omit a member
-                subinst = None
+                # positional documents (lists) can't omit a member. this also
+                # validates the null against the nillability of the member.
+                subinst = self._from_dict_value(ctx, k, member, v, validator)
 
             elif mo > 1:
                 subinst = getattr(inst, k, None)
